@@ -68,9 +68,9 @@ def main():
             continue
         t = open(p).read()
         if f.endswith(".rs") and f not in ("verif.rs", "test.rs"):
-            # lib.rs: the lock around the client `Connection` is part of the public API (generated client code names
-            # std's RwLock); it stays std's - C07 explores it through the ClientWantLock probe
-            t = rewrite(t, keep=("RwLock", "RwLockReadGuard", "RwLockWriteGuard") if f == "lib.rs" else ())
+            # (lib.rs: the lock around the client `Connection` is part of the public API; code generated for the copy is
+            # patched accordingly by harness_sync/vsy/build.rs)
+            t = rewrite(t)
         put(os.path.join(DST, "src", f), t)
         keep.add(f)
     for f in os.listdir(os.path.join(DST, "src")):
